@@ -352,7 +352,23 @@ pub fn gen_history(seed: u64, idx: u64) -> Vec<FfiOp> {
             let d = decs[slot].as_ref().unwrap();
             let n = d.h.num_cols();
             let hm = BitMat::from_sparse(&d.h);
-            let (full, _) = gen_llrs(&mut g, &hm);
+            let (mut full, _) = gen_llrs(&mut g, &hm);
+            // "all buffer contents": now and then infinities (an f32 infinity must behave as its
+            // f64 widening, i.e. as an f64 infinity; seeded change C19-r4-2 clamps them)
+            if g.chance(1, 10) {
+                for x in full.iter_mut() {
+                    if g.chance(1, 3) {
+                        *x = if *x < 0.0 || (*x == 0.0 && g.chance(1, 2)) { f64::NEG_INFINITY } else { f64::INFINITY };
+                    }
+                }
+            } else if g.chance(1, 12) {
+                // magnitudes that only an f32 turns into an infinity (and f32 subnormals)
+                for x in full.iter_mut() {
+                    if g.chance(1, 3) {
+                        *x = x.signum() * *g.pick(&[3.5e38, 1e39, 1e-40, 1e-46, 3.4028235e38]);
+                    }
+                }
+            }
             // the caller passes the punctured frame
             let llrs: Vec<f64> = match &d.pattern {
                 None => full,
@@ -527,7 +543,14 @@ impl Exec {
                     Some(p) => Puncturer::new(p).depuncture(&widened).map_err(|e| format!("reference depuncture failed: {}", e))?,
                 };
                 let mut fresh = m.imp.build_decoder(m.h.clone());
-                let want = fresh.decode(&dep, *max_iter as usize);
+                let want = match dstsim::quiet(|| std::panic::catch_unwind(std::panic::AssertUnwindSafe(|| fresh.decode(&dep, *max_iter as usize)))) {
+                    Ok(w) => w,
+                    Err(_) => {
+                        // the Rust decoder itself refuses this input: there is nothing to be faithful to
+                        stats.inc("skipped/the Rust decoder panics on this input");
+                        return Ok(());
+                    }
+                };
                 let (want_ret, want_word) = match &want {
                     Ok(o) => (o.iterations as i32, o.codeword.clone()),
                     Err(o) => (-1, o.codeword.clone()),
@@ -836,8 +859,13 @@ pub fn main(opts: &Opts) -> ! {
         // a crash ends a child; carry on after the crashed history in a new one
         loop {
             let dir = format!("{}/b{}-{}", base, b, start);
-            let (so, se, status) = spawn_child(&["child".into(), "ffi-batch".into(), opts.seed.to_string(), start.to_string(), count.to_string(), dir.clone()], timeout);
+            let (mut so, mut se, mut status) = spawn_child(&["child".into(), "ffi-batch".into(), opts.seed.to_string(), start.to_string(), count.to_string(), dir.clone()], timeout);
             let _ = std::fs::remove_dir_all(&dir);
+            if status.starts_with("killed after") {
+                // slow is not hung: second opinion with a limit 10 times longer (a loaded machine)
+                (so, se, status) = spawn_child(&["child".into(), "ffi-batch".into(), opts.seed.to_string(), start.to_string(), count.to_string(), dir.clone()], timeout * 10);
+                let _ = std::fs::remove_dir_all(&dir);
+            }
             let rep = parse_journal(&so, &status, &se);
             let crashed_at = rep.crash.as_ref().map(|c| c.0);
             reports.push(rep);
